@@ -29,4 +29,7 @@ Dsc == T.op = "discover"
 C10_DiscoveryRouting == (J /\ Dsc) => \A k \in 1..Len(T.got) :
                         (T.got[k].tok = T.got[k].receiver /\ T.got[k].fromport = T.got[k].ccport)
 C10_DiscoveryComplete == (J /\ Dsc) => (T.expected = Len(T.got) /\ T.strays = T.handlerStrays)
+\* a discovery issued with the token of one that is still pending is refused (and, by the two clauses above, does not
+\* take over or remove the pending one's registration)
+C10_DiscoveryDupRefused == (J /\ Dsc) => T.dupRefused
 =============================================================================
